@@ -40,6 +40,7 @@ def dispatch (line : String) : String :=
     | "lease" => cmdLease args
     | "announce" => cmdAnnounce args
     | "credit" => cmdCredit args
+    | "collect" => cmdCollect args
     | "rxb" => cmdRxb args
     | _ => "bad-op"
 
